@@ -344,6 +344,9 @@ fn acc_of(a: usize) -> crate::feedback::Accumulation {
 fn post_of(net: &crate::network::Network, j: usize, x: &Tensor) -> Tensor {
     match &net.layers[j] { crate::network::Layer::Dense(l) => l.forward(x).1, _ => panic!("dense layers only") }
 }
+/// equal up to rounding (relative 1e-4, absolute 1e-6): a re-association of a float sum must not count as a violation of a property about real-valued sums
+fn close(a: f32, b: f32) -> bool { (a.is_nan() && b.is_nan()) || a == b || (a - b).abs() <= 1e-6 + 1e-4 * a.abs().max(b.abs()) }
+fn close_all(a: &[f32], b: &[f32]) -> bool { a.len() == b.len() && a.iter().zip(b.iter()).all(|(x, y)| close(*x, *y)) }
 fn bits(t: &Tensor) -> Vec<u32> { t.get_flat().iter().map(|v| if v.is_nan() { 0x7fc0_0000 } else { v.to_bits() }).collect() }
 /// the statement of C17 executed literally on an n-layer dense network (width 2, small integer weights): the value passed on
 /// after layer `outof` is the configured accumulation of the k+1 successive outputs; observed at Network::predict
@@ -383,7 +386,7 @@ pub fn loopback_one(n: usize, into: usize, outof: usize, k: usize, inskips: bool
         _ => { let refs: Vec<&Tensor> = outs.iter().collect(); passed.mean_inplace(&refs); }
     }
     for j in outof + 1..n { passed = post_of(&net, j, &passed); }
-    if bits(&got) != bits(&passed) {
+    if !close_all(&got.get_flat(), &passed.get_flat()) {
         return Err(format!("predict = {:?} but the accumulated repeated sub-network gives {:?}", got.get_flat(), passed.get_flat()));
     }
     Ok(())
@@ -504,12 +507,12 @@ fn sched_net(seed: u64, momentum: bool) -> crate::network::Network {
     else { net.set_optimizer(crate::optimizer::Adam::create(0.015625, 0.5, 0.75, 1e-3, None)); }
     net
 }
-fn sched_weights(net: &crate::network::Network) -> Vec<u32> {
+fn sched_weights(net: &crate::network::Network) -> Vec<f32> {
     let mut out = Vec::new();
     for layer in net.layers.iter() {
         if let crate::network::Layer::Dense(l) = layer {
-            if let Data::Double(w) = &l.weights.data { for r in w { for v in r { out.push(v.to_bits()); } } }
-            if let Some(b) = &l.bias { if let Data::Single(b) = &b.data { for v in b { out.push(v.to_bits()); } } }
+            if let Data::Double(w) = &l.weights.data { for r in w { for v in r { out.push(*v); } } }
+            if let Some(b) = &l.bias { if let Data::Single(b) = &b.data { for v in b { out.push(*v); } } }
         }
     }
     out
@@ -554,12 +557,10 @@ pub fn schedule_one(n: usize, b: usize, e: i32, seed: u64) -> Result<(), String>
     }
     let mut net = sched_net(seed, momentum);
     let (got_loss, _, _) = net.learn(&xr, &yr, None, b, e, None);
-    if sched_weights(&net) != sched_weights(&r) {
+    if !close_all(&sched_weights(&net), &sched_weights(&r)) {
         return Err("weights after learn() differ from ordered mini-batch gradient-sum descent (one step per group, step number = epoch)".to_string());
     }
-    let gl: Vec<u32> = got_loss.iter().map(|v| v.to_bits()).collect();
-    let wl: Vec<u32> = want_loss.iter().map(|v| v.to_bits()).collect();
-    if gl != wl { return Err(format!("reported training losses {:?} differ from the mean of group means {:?}", got_loss, want_loss)); }
+    if !close_all(&got_loss, &want_loss) { return Err(format!("reported training losses {:?} differ from the mean of group means {:?}", got_loss, want_loss)); }
     Ok(())
 }
 pub fn dispatch_schedule(cmd: &str, name: &str, arg: &str) -> Option<String> {
@@ -623,11 +624,11 @@ pub fn validate_one(n: usize, softmax: bool, outs: usize, seed: u64) -> Result<(
     }
     let want_loss = losses.iter().sum::<f32>() / n as f32;
     let want_acc = accs.iter().sum::<f32>() / n as f32;
-    if got_loss.to_bits() != want_loss.to_bits() { return Err(format!("validate loss {} is not the mean over the samples {}", got_loss, want_loss)); }
-    if got_acc.to_bits() != want_acc.to_bits() { return Err(format!("validate accuracy {} is not the mean over the samples {}", got_acc, want_acc)); }
+    if !close(got_loss, want_loss) { return Err(format!("validate loss {} is not the mean over the samples {}", got_loss, want_loss)); }
+    if !close(got_acc, want_acc) { return Err(format!("validate accuracy {} is not the mean over the samples {}", got_acc, want_acc)); }
     let batch = net.predict_batch(&xr);
     if batch.len() != n { return Err(format!("predict_batch returned {} predictions for {} inputs", batch.len(), n)); }
-    for g in 0..n { if bits(&batch[g]) != bits(&net.predict(&xs[g])) { return Err(format!("predict_batch[{}] is not predict of input {}", g, g)); } }
+    for g in 0..n { if !close_all(&batch[g].get_flat(), &net.predict(&xs[g]).get_flat()) { return Err(format!("predict_batch[{}] is not predict of input {}", g, g)); } }
     Ok(())
 }
 pub fn dispatch_validate(cmd: &str, name: &str, arg: &str) -> Option<String> {
